@@ -50,7 +50,7 @@ def run(tier, seed):
         v.sample(rec)
     nt = sum(1 for r in recs if r['evperiod'] > 0)
     if v.counters.get('feat_indefinite_finite_final', 0) == 0 or v.counters.get('feat_dose_at_final_time', 0) == 0:
-        raise MachineryError('vacuous run: boundary strata empty')
+        v.vacuous('vacuous run: boundary strata empty')
     cov = dict(states=out['run']['states'] + sum(r['states'] for r in ctl['runs']),
                transitions=out['run']['transitions'] + sum(r['transitions'] for r in ctl['runs']),
                traces_validated_against_impl=len(recs) + v.counters.get('controller_cases', 0), evaluations=v.counters.get('evaluations', 0),
